@@ -551,16 +551,27 @@ Section Node.
                 end
             | SList false keys _ _ sfs, TList es =>
                 let ek := ekeys e0 in
-                (* no matching entry: insertAndGetKey when modifyRoot (overwrites an entry with the same key) *)
+                (* no matching entry: insertAndGetKey when modifyRoot.  The new value and its map key are
+                   built first (makeValForInsert / makeKeyForInsert, whose errors come first); when the
+                   map holds that key already (the path spelled the key differently from the form that
+                   entries are matched by, e.g. "01" for the uint8 1) the existing entry is kept and the
+                   descent continues in it; otherwise the new entry is inserted *)
                 let insert_new (es : list (list scalar * tree)) : option tree * result nat :=
                   if s_init o then
                     match make_entry env fo ko sfs keys ek with
                     | Ok (mk, nfs) =>
-                        (* rv.MapIndex(key).Interface() on the key just inserted: a NaN key is not found
-                           again and Interface() of the zero Value panics *)
+                        (* rv.MapIndex(key).Interface() on the key just inserted: a NaN key is never found
+                           (neither by the check for an existing entry nor afterwards) and Interface() of
+                           the zero Value panics *)
                         if existsb nan_key mk then (Some (TList (tl_insert mk (TCont nfs) es)), Panic) else
-                        let '(e', r) := set_rec f s (Some (TCont nfs)) prest in
-                        (Some (TList (match e' with Some e'' => tl_insert mk e'' es | None => es end)), r)
+                        match tl_find mk es with
+                        | Some e_old =>
+                            let '(e', r) := set_rec f s (Some e_old) prest in
+                            (Some (TList (match e' with Some e'' => tl_insert mk e'' es | None => es end)), r)
+                        | None =>
+                            let '(e', r) := set_rec f s (Some (TCont nfs)) prest in
+                            (Some (TList (match e' with Some e'' => tl_insert mk e'' es | None => es end)), r)
+                        end
                     | Err => (Some (TList es), Err)
                     | Panic => (Some (TList es), Panic)
                     end
